@@ -157,12 +157,19 @@ theorem finish_sec (x : RState) (a' : Nat) (opt : Option EOpt) (tsig : Option Ts
   cases opt with
   | some o =>
     -- the OPT is added in section 3 on both sides: identical states from there on
-    have e : ({ x with sec := a' } : RState).releaseReserved.addOpt o pad a b = x.releaseReserved.addOpt o pad a b := by
+    have e : stepToExcept (({ x with sec := a' } : RState).releaseReserved.addOpt o pad a b)
+        = stepToExcept (x.releaseReserved.addOpt o pad a b) := by
       unfold RState.addOpt
-      rw [secADD]
-      split
-      · exact addRRset3_sec { x.releaseReserved with wasPadded := true } a' _ hx ha
-      · exact addRRset3_sec x.releaseReserved a' _ hx ha
+      have hl : ({ x with sec := a' } : RState).releaseReserved.out.length = x.releaseReserved.out.length := rfl
+      rw [hl]
+      by_cases hg : pad ≠ 0 ∧ padLen x.releaseReserved.out.length pad a b > 65535
+      · rw [if_pos hg, if_pos hg]; rfl
+      · rw [if_neg hg, if_neg hg]
+        unfold RState.addOptCore
+        rw [secADD]
+        split
+        · exact congrArg stepToExcept (addRRset3_sec { x.releaseReserved with wasPadded := true } a' _ hx ha)
+        · exact congrArg stepToExcept (addRRset3_sec x.releaseReserved a' _ hx ha)
     simp only [e]
   | none =>
     simp only
